@@ -101,9 +101,12 @@ def broker_scenarios(ctx, n):
 def run(ctx):
     binary = ctx.go_test_build("plugin/input/kafka")
     thorough = ctx.tier == "thorough"
-    big = {"NRec": "5", "NProcs": "3"} if thorough else None
-    res = ctx.tlc_expect_ok("KafkaInput", "KafkaInput_residual.cfg", timeout=900, deadlock=False, overrides=big,
+    big = {"NRec": "8", "NProcs": "3"} if thorough else {"NRec": "6", "NProcs": "3"}
+    res = ctx.tlc_expect_ok("KafkaInput", "KafkaInput_residual.cfg", timeout=1800, deadlock=False, overrides=big,
                             name="KafkaInput/per-partition-FIFO")
+    if thorough:
+        ctx.tlc_expect_ok("KafkaInput", "KafkaInput_residual.cfg", timeout=3000, deadlock=False,
+                          overrides={"NRec": "7", "NProcs": "3", "Parts": "{0, 1, 2}"}, name="KafkaInput/per-partition-FIFO, three partitions")
     pack = [p for p in res.printed if isinstance(p, dict) and "pack" in p]
     if not pack:
         raise vlib.Infra("no packing cases exported")
@@ -120,7 +123,7 @@ def run(ctx):
         raise vlib.Infra("design model does not reproduce D10 under spread routing (violated=%s)" % d10.violated)
     ctx.states += d10.distinct
     ctx.transitions += d10.generated
-    scs = scenarios(ctx, 600 if thorough else 120)
+    scs = scenarios(ctx, 900 if thorough else 240)
     inp = os.path.join(ctx.scratch, "c10_in.json")
     out = os.path.join(ctx.scratch, "c10_trace.ndjson")
     json.dump({"scenarios": scs, "pack": cases}, open(inp, "w"))
@@ -144,7 +147,7 @@ def run(ctx):
         if len({(r["topic"], r["part"]) for r in s["recs"]}) < len(s["recs"]):
             shapes.add(json.dumps([[r["topic"], r["part"], r["cls"], r["delay_us"] > 0] for r in s["recs"]]))
     # broker family: real Start / Stop
-    bsc = broker_scenarios(ctx, 24 if thorough else 6)
+    bsc = broker_scenarios(ctx, 36 if thorough else 8)
     binp = os.path.join(ctx.scratch, "c10_broker_in.json")
     bout = os.path.join(ctx.scratch, "c10_broker_trace.ndjson")
     json.dump(bsc, open(binp, "w"))
